@@ -782,6 +782,112 @@ def q7(rep):
     rep.floor("(vector, count) pairs over the targets of a multiple assignment", n, 10)
 
 
+def q10(rep):
+    """Copy propagation: cpDefIsCopy decides that a statement is a copy (through the macro cpIsCopyableCast: a cast around a local or
+    parameter counts) and cpRhsVarFrCopy extracts the copied variable so that the copy can be recorded under it and killed when the
+    variable is reassigned.  Both look through casts; they must look through the same number of them, otherwise a statement is
+    treated as a copy that is never killed and later uses of the target read the source's new value."""
+    f = common.extract("of_cprop.c", all_trees=True)
+
+    def loops_over_casts(fn):
+        return any(w["k"] == "WhileStmt" and any(y["k"] == "DeclRefExpr" and y["n"] == "FOAM_Cast" for y in walk(w["c"][0]))
+                   for w in walk(fn["body"]))
+
+    def depth_of(e):
+        """number of `.foamCast.expr` steps applied to a variable; '*' for a helper or loop that strips them all"""
+        e = strip(e)
+        k = 0
+        while e is not None and e["k"] == "MemberExpr" and e["n"] == "expr":
+            inner = strip(e["c"][0])
+            if inner is None or inner["k"] != "MemberExpr" or inner["n"] != "foamCast":
+                return None
+            k += 1
+            e = strip(inner["c"][0])
+        if e is not None and e["k"] == "DeclRefExpr":
+            return k
+        if e is not None and e["k"] == "CallExpr" and e.get("callee") in f.funcs and "body" in f.funcs[e["callee"]] \
+                and loops_over_casts(f.funcs[e["callee"]]):
+            return "*"
+        return None
+    rec = f.func("cpDefIsCopy")
+    tests = [x for x in walk(rec["body"]) if x.get("mac") == "cpIsCopyableCast" and x["k"] == "BinaryOperator" and x["op"] == "==" and
+             any(y["k"] == "DeclRefExpr" and y["n"] in ("FOAM_Loc", "FOAM_Par") for y in walk(x["c"][1]))]
+    if not tests:
+        raise AnalysisBroken("cpDefIsCopy: the variable test of cpIsCopyableCast was not found")
+    depths = set()
+    for t in tests:
+        tagged = [y for y in walk(t["c"][0]) if y["k"] == "MemberExpr" and y["n"] == "tag"]
+        if len(tagged) != 1:
+            raise AnalysisBroken("cpIsCopyableCast: shape of the tag test changed")
+        hdr = strip(tagged[0]["c"][0])
+        d = depth_of(hdr["c"][0]) if hdr is not None and hdr["k"] == "MemberExpr" else None
+        if d is None:
+            raise AnalysisBroken("cpIsCopyableCast: cannot tell how many casts are looked through in `%s`" % render(t)[:60])
+        depths.add(d)
+    ext = f.func("cpRhsVarFrCopy")
+    if loops_over_casts(ext):
+        edepth = "*"
+    else:
+        strips = [i for i in walk(ext["body"]) if i["k"] == "IfStmt" and
+                  any(y["k"] == "DeclRefExpr" and y["n"] == "FOAM_Cast" for y in walk(i["c"][0])) and
+                  any(y["k"] == "MemberExpr" and y["n"] == "foamCast" for y in walk(i["c"][1]))]
+        edepth = len(strips)
+    key = "cprop:copy-recogniser-and-extractor-strip-alike"
+    where = "of_cprop.c:%d (cpDefIsCopy / cpRhsVarFrCopy)" % rec["l"]
+    if depths == {edepth}:
+        rep.ok("Q10", key, sample={"casts looked through": edepth})
+    else:
+        rep.violation("Q10", key, where,
+                      "cpIsCopyableCast accepts a variable under %s cast(s) as a copy, cpRhsVarFrCopy finds the variable only under %s: "
+                      "a copy through more casts is recorded under no variable, is never killed when its source is reassigned, and "
+                      "later uses of its target are rewritten to the source's new value" %
+                      ("/".join(str(d) for d in sorted(depths, key=str)), edepth))
+
+
+def q11(rep):
+    """The constant folder evaluates integer builtins with the C operators.  C's / and % on a zero divisor trap: a fold whose
+    divisor is an operand constant must decline (`break`) when that constant is zero, otherwise the compiler itself faults at
+    -Q2 on a program that, unoptimised, prints its output and then faults at run time."""
+    f = common.extract("of_cfold.c", trees=["cfoldBCall"])
+    fn = f.func("cfoldBCall")
+    n = 0
+    for sw in walk(fn["body"]):
+        if sw["k"] != "SwitchStmt":
+            continue
+        try:
+            groups = common.switch_cases(sw)
+        except AnalysisBroken:
+            continue
+        for g in groups:
+            labs = [l[0] for l in g["labels"] if l[0] and l[0].startswith("FOAM_BVal_")]
+            if not labs:
+                continue
+            guards = set()
+            for st in g["stmts"]:
+                if st["k"] == "IfStmt" and st["c"][1] is not None and st["c"][1]["k"] == "BreakStmt":
+                    for y in walk(st["c"][0]):
+                        if y["k"] == "BinaryOperator" and y["op"] == "==" and const_value(y["c"][1]) == 0:
+                            guards.add(render(strip(y["c"][0])))
+            for st in g["stmts"]:
+                for x in walk(st):
+                    if x["k"] == "BinaryOperator" and x["op"] in ("/", "%") and (x.get("tc") or "")[:1] in ("i", "u"):
+                        d = strip(x["c"][1])
+                        cv = const_value(d)
+                        if cv is not None and cv != 0:
+                            continue
+                        n += 1
+                        key = "fold-divisor-nonzero:%s" % labs[0][len("FOAM_BVal_"):]
+                        if render(d) in guards:
+                            rep.ok("Q11", key)
+                        else:
+                            rep.violation("Q11", key, "of_cfold.c:%d (cfoldBCall %s)" % (x["l"], labs[0]),
+                                          "the fold of %s computes `%s` with no preceding `if (%s == 0) break;`: with a literal zero "
+                                          "divisor the compiler takes the arithmetic exception while optimising, so the program's "
+                                          "behaviour at -Q2 (nothing printed) differs from -Q0 (output, then a run-time fault)"
+                                          % (labs[0][len("FOAM_BVal_"):], render(x)[:60], render(d)))
+    rep.floor("integer divisions by an operand in the constant folder", n, 6)
+
+
 def run(tier, only=None):
     rep = common.Report("C02", tier, EXPLANATION)
     f_foam = common.extract("foam.c", trees=["foamHasSideEffect", "foamIsControlFlow"])
@@ -795,6 +901,8 @@ def run(tier, only=None):
     q5(rep)
     q6(rep)
     q7(rep)
+    q10(rep)
+    q11(rep)
     from . import selfcompare
     selfcompare.report(rep, "Q9", [u for u in common.compiler_units() if u.startswith("of_") or u in ("usedef.c", "flog.c", "dflow.c", "optfoam.c", "inlutil.c", "loops.c", "foam.c")], what="(optimizer)")
     from . import variadic
